@@ -15,13 +15,27 @@ from pyvc import calls as calls_mod
 RETRY_SEEDS = (0, 7, 23)
 
 
+_DEADLINE = [None]
+
+
+def _remaining(timeout_ms):
+  """Per-obligation budget: a failing obligation must not multiply its cost by the number of
+  split strategies (cases x conjuncts x seeds)."""
+  if _DEADLINE[0] is None:
+    return timeout_ms
+  left = int((_DEADLINE[0] - time.time()) * 1000)
+  return max(200, min(timeout_ms, left))
+
+
 def _check(pc, goal, timeout_ms, seeds=(0,)):
   """pc ∧ ¬goal; `unknown` is retried with other solver seeds (proof search is sensitive to
   term order; a different seed is a different instantiation order, never a different logic)."""
   r, s = z3.unknown, None
   for seed in seeds:
+    if seed and _DEADLINE[0] is not None and time.time() > _DEADLINE[0]:
+      break
     s = z3.Solver()
-    s.set('timeout', timeout_ms)
+    s.set('timeout', _remaining(timeout_ms))
     if seed:
       s.set('random_seed', seed)
       s.set('smt.random_seed', seed)
@@ -85,6 +99,7 @@ def discharge(ob, timeout_ms, use_cvc5=True):
   if ob.verdict is not None:
     return
   t0 = time.time()
+  _DEADLINE[0] = t0 + 4.0 * timeout_ms / 1000.0
   pivots = list(getattr(ob, 'pivots', ()) or ())
   r, s = _prove_split(ob.pc, ob.goal, timeout_ms, pivots)
   ob.solver = 'z3'
@@ -94,6 +109,9 @@ def discharge(ob, timeout_ms, use_cvc5=True):
     ob.solver = 'z3/cases'
     allok = True
     for combo in itertools.product([True, False], repeat=len(ob.cases)):
+      if time.time() > _DEADLINE[0]:
+        allok = False
+        break
       sub = [(a, z3.BoolVal(v)) for a, v in zip(ob.cases, combo)]
       lits = [a if v else z3.Not(a) for a, v in zip(ob.cases, combo)]
       pc2 = [z3.simplify(z3.substitute(p, *sub)) for p in ob.pc] + lits
@@ -119,6 +137,7 @@ def discharge(ob, timeout_ms, use_cvc5=True):
       v = cvc5_check(s, timeout_ms)
       if v == 'unsat':
         ob.verdict, ob.solver = 'unsat', 'cvc5'
+  _DEADLINE[0] = None
   ob.time = time.time() - t0
 
 
